@@ -160,7 +160,12 @@ func (qs *QueryStore) OnQueryChange(cb func(store.QueryChange)) {
 
 // Flush waits for the indexing queue to be cleared.
 func (qs *QueryStore) Flush() {
-	qs.tq.Flush()
+	// The task queue counts a task as done when it is taken off the queue, not
+	// when it has completed. As tasks are run one at a time in order, wait for
+	// a task of our own instead, to know that all previous tasks have completed.
+	done := make(chan struct{})
+	qs.tq.Do(func() { close(done) })
+	<-done
 }
 
 func (qs *QueryStore) handleChange(id string, before, after interface{}) {
